@@ -345,7 +345,7 @@ func checkC15(c *Check) {
 	// seeded random two/three-rule grammars over every operator
 	nRand := 200
 	if c.Tier == "thorough" {
-		nRand = 4000
+		nRand = 20000
 	}
 	cases = append(cases, randomDiagCases(c.Seed+11, nRand)...)
 	out := make([]res, len(cases))
